@@ -216,7 +216,7 @@ func runDfaTrace(args []string) {
 		if float64(peak) > 2.5*float64(hp.cap)+96*1024 {
 			rep.Fail(&core.Failure{Prop: "C20", API: "DFACache heap", Mode: "first", Pattern: hp.pat, Hay: "", Cfg: fmt.Sprintf("cap=%d", hp.cap),
 				Want: fmt.Sprintf("live heap pinned by one cache <= 2.5 x capacity + 96 KiB = %d", int(2.5*float64(hp.cap))+96*1024),
-				Got: fmt.Sprintf("%d bytes after filling / clearing (runtime.MemStats.HeapAlloc delta)", peak), Scope: "lazy"})
+				Got:  fmt.Sprintf("%d bytes after filling / clearing (runtime.MemStats.HeapAlloc delta)", peak), Scope: "lazy"})
 		}
 	}
 	rep.Extra["heap_over_capacity_max_ratio"] = heapMax
